@@ -51,7 +51,9 @@ def make_target(rng, d):
 
 
 def _make_target(rng, d):
-    kind = str(rng.choice(["gauss", "banana", "gamma"])) if d >= 2 else str(rng.choice(["gauss", "gamma"]))
+    kind = str(rng.choice(["gauss", "banana", "gamma", "terrace"])) if d >= 2 else str(rng.choice(["gauss", "gamma", "terrace"]))
+    if kind == "terrace":
+        return kind, mc.TerraceTarget(rng.normal(size=d) * 0.3, radius=float(rng.uniform(0.5, 2.0)), step=float(rng.choice([0.5, 0.75, 1.0])))
     if kind == "gauss":
         A = rng.normal(size=(d, d))
         C = A @ A.T / d + 0.5 * np.eye(d)
